@@ -138,6 +138,10 @@ pub struct RcCase {
     pub sched: Vec<Directive>,
     #[serde(default)]
     pub tmpl: String,
+    /// fallback scheduling once the directives are used up: 0 = each remaining thread runs to
+    /// completion in index order, q > 0 = round robin with q ops per turn
+    #[serde(default)]
+    pub rr: u8,
 }
 
 pub const MAX_RCS: usize = 6;
@@ -721,7 +725,13 @@ impl Th {
                     g.flush();
                 }
                 let e1 = circ::verif::global_epoch();
-                with(|s| s.add("epochs_advanced_by_ops", (e1 - e0) as u64));
+                let me = self.tid;
+                with(|s| {
+                    s.add("epochs_advanced_by_ops", (e1 - e0) as u64);
+                    if k > 0 {
+                        s.note_protection(me);
+                    }
+                });
                 true
             }
             K::Quiesce => {
@@ -740,7 +750,11 @@ impl Th {
                     g.flush();
                 }
                 let e1 = circ::verif::global_epoch();
-                with(|s| s.add("epochs_advanced_by_ops", (e1 - e0) as u64));
+                let me = self.tid;
+                with(|s| {
+                    s.add("epochs_advanced_by_ops", (e1 - e0) as u64);
+                    s.note_protection(me);
+                });
                 true
             }
             K::New => {
@@ -1568,7 +1582,7 @@ pub fn run_case(case: &RcCase) -> RcRun {
         drop(cs());
     }
     let epoch0 = circ::verif::global_epoch();
-    sched::init(n, case.sched.clone());
+    sched::init_rr(n, case.sched.clone(), case.rr as u32);
     let mut handles = Vec::new();
     for t in 0..n {
         let ops: Vec<Op> = case.threads.get(t).cloned().unwrap_or_default();
@@ -1679,7 +1693,7 @@ pub fn exec(prop: &str, v: &serde_json::Value) -> Report {
     let mut rep = Report::default();
     rep.nontrivial = match prop {
         "C01" => get(c, "destructs") >= 1 && get(c, "rc_acquired_not_new") >= 1 && get(c, "switches") >= 2,
-        "C02" => get(c, "destruct_while_peer_holds_snapshot") >= 1,
+        "C02" => get(c, "destruct_while_peer_holds_snapshot") >= 1 || get(c, "rounds_while_object_protected_only_by_peer_snapshot") >= 1,
         "C03" => get(c, "dealloc_after_weak_outlived_object") >= 1,
         "C04" => get(c, "objects") >= 3 && get(c, "destruct_cascade") >= 1 && get(c, "destruct_root") >= 1,
         "C05" => (get(c, "upgrade_ok") >= 1 && get(c, "upgrade_fail") >= 1) || get(c, "upgrade_overlapped") >= 1,
